@@ -118,3 +118,28 @@ Proof.
   split; [exact H1|]. split; [exact H2|]. split; [apply groups_coherent_b_sound; exact H3|].
   exact k1x_transfer_loses_content.
 Qed.
+
+(* ---- order-sensitive include lists with FollowPaths (regression of the fixed finding
+        dedupe-order-sensitive-includes: dedupePaths used to drop a/x/y "below a") ----
+   tree a/{k, x/{y,z}}, l -> t, t;  IncludePatterns [a, !a/x, a/x/y], FollowPaths [l]:
+   the matcher gets [a, !a/x, a/x/y, l, t]; a/x/y is reported and can be opened *)
+From FS Require Model.FollowLinks Model.FilterOpt.
+Definition st_sym (target : string) : stat :=
+  {| st_path := []; st_mode := (ModeSymlink + 511)%N; st_uid := 0%N; st_gid := 0%N; st_size := 1%N; st_mtime := 0%N;
+     st_linkname := bs target; st_devmajor := 0%N; st_devminor := 0%N; st_xattrs := [] |}.
+Definition dd_view : list node :=
+  [ D "a" [F "k"; D "x" [F "y"; F "z"]]; Node (bs "l") (st_sym "t") [] []; F "t" ].
+Definition dd_inc : list (list N) := [bs "a"; bs "!a/x"; bs "a/x/y"].
+Definition dd_follow : list (list N) := [bs "l"].
+Definition dd_cfg (l : list (list N)) : cfg :=
+  match mk_cfg l [] with Some c => c | None => nopat_cfg end.
+
+Lemma dd_assembled :
+  wf_source dd_view = true /\
+  FilterOpt.assemble_includes dd_view dd_inc [] = FollowLinks.Ok dd_inc /\
+  FilterOpt.assemble_includes dd_view dd_inc dd_follow = FollowLinks.Ok [bs "a"; bs "!a/x"; bs "a/x/y"; bs "l"; bs "t"] /\
+  paths (sender_view pm_lit id_map (dd_cfg [bs "a"; bs "!a/x"; bs "a/x/y"; bs "l"; bs "t"]) dd_view)
+    = [bs "a"; bs "a/k"; bs "a/x"; bs "a/x/y"; bs "l"; bs "t"] /\
+  filter_open pm_lit (dd_cfg [bs "a"; bs "!a/x"; bs "a/x/y"; bs "l"; bs "t"]) (bs "a/x/y") = true /\
+  filter_open pm_lit (dd_cfg [bs "a"; bs "!a/x"; bs "a/x/y"; bs "l"; bs "t"]) (bs "a/x/z") = false.
+Proof. vm_compute. repeat split; reflexivity. Qed.
